@@ -99,15 +99,15 @@ def gen_pairs(rng, per_op):
                 if op in FLOAT_OPS:
                     cmp_ = 1
             elif fam == "M1":
-                skind = rng.choice([0, 4])
+                skind = rng.choice([0, 4, 5])
                 # component-alpha HSL has no defined equation (pixman makes it a no-op): not a presentation of "no mask"
                 ms = rng.sample([0, 1, 2] if op >= 0x3b else [0, 1, 2, 3], 2)
                 sf = rng.choice([A, X]) if skind == 0 else A
                 variants = [dict(mkind=ms[0], sfmt=sf), dict(mkind=ms[1], sfmt=sf)]
             else:  # D1
-                skind = rng.choice([0, 4, 1])
+                skind = rng.choice([0, 4, 1, 5, 5])
                 sf = rng.choice([A, X]) if skind == 0 else A
-                mk = rng.choice([0, 4])
+                mk = rng.choice([0, 4, 5])
                 variants = [dict(dfmt=X, sfmt=sf, mkind=mk), dict(dfmt=A, sfmt=sf, mkind=mk)]
                 if rng.random() < 0.7:
                     quant |= 2          # destination with REPEAT_NORMAL: the alpha-less one is flagged opaque
